@@ -66,6 +66,12 @@ structure St where
   base : Nat
 deriving Repr, DecidableEq
 
+/-- `tbl, next = next, tbl` (the slice variables are exchanged, not the bytes) -/
+def St.swap (s : St) : St := { s with tbl := s.next, next := s.tbl }
+
+/-- `base = b` -/
+def St.setBase (s : St) (b : Nat) : St := { s with base := b }
+
 section
 variable (E : Bytes → Bytes) (bs : Nat)
 
@@ -79,8 +85,7 @@ def encAt (closed : Bool) (off : Nat) (s : St) : St :=
 
 /-- one case of the `left` switch: a block at `base`, then `base += bs` -/
 def encL (closed : Bool) (s : St) : St :=
-  let s1 := encAt E bs closed s.base s
-  { s1 with base := s1.base + bs }
+  (encAt E bs closed s.base s).setBase (s.base + bs)
 
 /-- `case 0`: `subtle.XORBytes(dst[base:], src[base:], tbl)` -/
 def tailXor (s : St) : St :=
@@ -116,8 +121,7 @@ def decB (closed : Bool) (off : Nat) (s : St) : St :=
 /-- one case of the `left` switch of decrypt: step A at `base`, `tbl, next = next, tbl`,
 `base += bs` -/
 def decL (closed : Bool) (s : St) : St :=
-  let s1 := decA E bs closed s.base s
-  { s1 with tbl := s1.next, next := s1.tbl, base := s1.base + bs }
+  (decA E bs closed s.base s).swap.setBase (s.base + bs)
 
 def decSwitch (closed : Bool) (left : Nat) (s : St) : St :=
   let L := decL E bs closed
@@ -150,7 +154,7 @@ def encGroup8 (s : St) : St :=
   let s := encAt E 8 true (b + 40) s   -- 6
   let s := encAt E 8 true (b + 48) s   -- 7
   let s := encAt E 8 true (b + 56) s   -- 8
-  { s with base := b + 64 }
+  s.setBase (b + 64)
 
 /-- body of the `for range repeat` loop of `encrypt16` -/
 def encGroup16 (s : St) : St :=
@@ -163,7 +167,7 @@ def encGroup16 (s : St) : St :=
   let s := encAt E 16 true (b + 80) s
   let s := encAt E 16 true (b + 96) s
   let s := encAt E 16 true (b + 112) s
-  { s with base := b + 128 }
+  s.setBase (b + 128)
 
 /-- body of the `for range repeat` loop of `decrypt8`: `tbl`/`next` alternate, no swap -/
 def decGroup8 (s : St) : St :=
@@ -176,7 +180,7 @@ def decGroup8 (s : St) : St :=
   let s := decB E 8 true (b + 40) s    -- 6
   let s := decA E 8 true (b + 48) s    -- 7
   let s := decB E 8 true (b + 56) s    -- 8
-  { s with base := b + 64 }
+  s.setBase (b + 64)
 
 def decGroup16 (s : St) : St :=
   let b := s.base
@@ -188,7 +192,7 @@ def decGroup16 (s : St) : St :=
   let s := decB E 16 true (b + 80) s
   let s := decA E 16 true (b + 96) s
   let s := decB E 16 true (b + 112) s
-  { s with base := b + 128 }
+  s.setBase (b + 128)
 
 /-- `tbl := buf[:bs]; block.Encrypt(tbl, initialVector)`; `next0` is whatever the working
 buffer held before (it is never read before being written) -/
@@ -223,6 +227,21 @@ def decrypt16 (src dst : Bytes) (alias : Bool) (next0 : Bytes) : St :=
   let rep := n >>> 3
   let left := n &&& 7
   decSwitch E 16 false left (iter (decGroup16 E) rep (start E 16 src dst alias next0))
+
+/-- `encrypt(block, dst, src, buf)`: dispatch on `block.BlockSize()`; `none` is the panic
+"unsupported cipher block size" -/
+def encrypt (bs : Nat) (src dst : Bytes) (alias : Bool) : Option Bufs :=
+  match bs with
+  | 8 => some (encrypt8 E src dst alias).m
+  | 16 => some (encrypt16 E src dst alias).m
+  | _ => none
+
+/-- `decrypt(block, dst, src, buf)` -/
+def decrypt (bs : Nat) (src dst : Bytes) (alias : Bool) (next0 : Bytes) : Option Bufs :=
+  match bs with
+  | 8 => some (decrypt8 E src dst alias next0).m
+  | 16 => some (decrypt16 E src dst alias next0).m
+  | _ => none
 
 end
 
